@@ -12,6 +12,7 @@
    when blocks are delivered out of order. *)
 From Coq Require Import Sorting.Sorted.
 From Verif Require Import Base.Util Model.SimChain Proofs.SimChainProofs Gen.Generated.
+From Verif Require Import Base.GenIR Gen.GeneratedTr Proofs.GenTrSim.
 Open Scope N_scope.
 
 (* For every sequence of received blocks (any numbers, any order, repeats allowed) the history
@@ -119,6 +120,21 @@ Print Assumptions C19_gen_report_range.
 Theorem C19_gen_history_covers_observation : (ObservationBlockHistoryLimit <= SimHistoryDepth)%Z.
 Proof. vm_compute. discriminate. Qed.
 Print Assumptions C19_gen_history_covers_observation.
+
+Section GenTie.
+Local Open Scope Z_scope.
+(* ---- Tie to the source by translation (Gen/GeneratedTr.v, regenerated from /repo on every run by gen/translate.go) ----
+   g_* are the decision terms translated from the CURRENT Go code: every condition, the branch structure and which
+   white-listed effect statement runs on which path.  The theorems below state that the model's functions - about
+   which every theorem above speaks - are the interpretation of these terms. *)
+(* simulator keyLess: shorter decimal keys first, equal lengths lexicographically: the model's keyless *)
+Theorem C19_gen_keyLess_decisions :
+  forall a b : str,
+  g_sim_keyLess (Z.of_nat (length a)) (Z.of_nat (length b)) (str_ltb a b) = ([], RetB (keyless a b)).
+Proof. exact gen_sim_keyLess. Qed.
+Print Assumptions C19_gen_keyLess_decisions.
+
+End GenTie.
 
 (* Non-vacuity: a range crossing a power of ten, received out of order with a repeat, gives the
    descending history; three senders of one (report, round) around a Load record one event;
